@@ -132,7 +132,8 @@ func (c *clipperBase) recursiveCheckOwners(outrec *OutRec, polypath *PolyPathBas
 func (c *clipperBase) checkSplitOwner(outrec *OutRec, splits []int) bool {
 	for _, i := range splits {
 		split := c.outrecList[i]
-		if split.pts == nil && len(split.splits) > 0 {
+		if split.pts == nil && len(split.splits) > 0 && split.recursiveSplit != outrec {
+			split.recursiveSplit = outrec // (split lists may refer to each other)
 			if c.checkSplitOwner(outrec, split.splits) {
 				return true
 			}
@@ -629,13 +630,22 @@ func (c *clipperBase) doSplitOp(outrec *OutRec, splitOp *OutPt) {
 		prevOp.next = newOp
 	}
 
-	if !(absArea2 > 1 && (absArea2 > absArea1 || (area2 > 0) == (area1 > 0))) {
+	// The lobe is kept as a ring of its own whenever it has an area, whatever its
+	// orientation: a ring that touches itself (a vertex on one of its own edges) is turned
+	// into a crossing by the rounding of a neighbouring vertex, and the lobe cut off there
+	// is a pinched-off hole. Discarding it would change the winding number inside it.
+	if !(absArea2 > 1) {
 		verifEvent("split-drop-tri", ip, splitOp.pt, splitOp.next.pt, prevOp.pt, nextNextOp.pt)
 		return
 	}
 
 	newOutRec := c.newOutRec()
 	newOutRec.owner = outrec.owner
+	if (area2 > 0) != (area1 > 0) {
+		// a lobe of opposite orientation is a hole pinched off the ring it was cut from
+		// (recursiveCheckOwners moves it up if it is not contained after all)
+		newOutRec.owner = outrec
+	}
 	splitOp.outrec = newOutRec
 	splitOp.next.outrec = newOutRec
 
